@@ -20,6 +20,12 @@ def cells(tier):
                 ["plain", "coro"], [["ret", "exc"], ["ret"]],
                 skip=lambda s, rn, dn, cn, o: (cn == "coro" and rn != "A2") or (len(o) == 1) != (q and rn == "A2|M3/2" and s == 2 and "+" in dn))
     out += grid(MON, [2], ["A2", "M3/2"], ["cancel0", "cancelM0", "call", "call+flush"], ["partial", "method", "slowccb", "slowecb"], [["ret"]])
+    # a worker that cancels its own group (or itself by id) from its own code in its last step; callbacks that suspend
+    for size in [1, 2]:
+        for on, o in {"cgroup": cgroup("A"), "cancel0": cancel(rid("A", 0))}.items():
+            sc = scen(pool(size), [[A("A", 2)], [o]], outcomes=["ret"], ecb="slow", ccb="slow", slow_ids=[0, 1],
+                      inline={"actors": [1], "at": ["w_resume"]})
+            out.append(cell(f"inline s{size} A2 {on}@w_resume slowcbs (self-cancel in the last step)", sc, MON))
     sc = scen(pool(2, name="named"), [[A("A", 2)], [["cancel", rid("A", 0), {"msg": "m1"}]], [["cancel_group", "A", {"msg": "m2"}]]], outcomes=["ret", "exc"], ecb="plain", ccb="coro")
     out.append(cell("s2 named pool A2 cancel0(msg) cgroupA(msg)", sc, MON))
     sc = scen(pool(1, "SimpleTaskPool", name="simple", ecb="amethod", ccb="method"), [[S("S", 2)], [["cancel_all", {"msg": "bye"}]], [FLUSH]], outcomes=["ret"])
